@@ -112,10 +112,10 @@ Section Cores.
     split; [|split]; intros.
     - apply ks_blocks_gen_n with (P := is_ctr); [| |exact I].
       + intros [cn0| |] H; try contradiction. cbn [kscore sc_gen]. destruct (ctr_gen _ C cn0); exact I.
-      + intros [cn0| |] H; try contradiction. apply kscore_par_ctr.
+      + intros _ [cn0| |] H; try contradiction. apply kscore_par_ctr.
     - apply ks_blocks_gen_n with (P := is_belt); [| |exact I].
       + intros [|?|st0] H; try contradiction. cbn [kscore sc_gen]. destruct (belt_gen C st0); exact I.
-      + intros [|?|st0] H; try contradiction. apply kscore_par_belt.
+      + intros _ [|?|st0] H; try contradiction. apply kscore_par_belt.
     - (* OfbCore's backend declares ParBlocksSize = 1: only the single-block loop exists *)
       reflexivity.
   Qed.
